@@ -259,6 +259,19 @@ class BuiltinMixin(object):
     def _args1(self, e, st):
         return self.ev_list(e.args, st)
 
+    def bi_assume(self, e, st):
+        """assume(<spec>) in a ghost statement: a definitional link between a spec symbol and a code value (listed in the evidence)"""
+        if self.ghost_depth == 0:
+            raise OutsideSubset("assume outside ghost code")
+        self.spec_depth += 1
+        try:
+            g = truthy(self.ev1(e.args[0], st))
+        finally:
+            self.spec_depth -= 1
+        self.notes.append("ghost assume: %s" % ast.unparse(e.args[0]))
+        st = st.copy().assume(g)
+        return [(st, NONEV)]
+
     def bi_len(self, e, st):
         res = []
         for st1, (a,) in self._args1(e, st):
